@@ -709,6 +709,7 @@ def canon(prog: Program, cls: Optional[ClassInfo], fn: ast.FunctionDef, exclude:
     cache = fn.__dict__.setdefault("_jfsa_canon", {})
     if key in cache:
         return cache[key]
+    _COUNTER[0] = 0   # generated names are numbered per canonical form (stable finding keys)
     saved = fn.__dict__.pop("_jfsa_canon")
     try:
         f = copy.deepcopy(fn)
